@@ -29,10 +29,13 @@ type c05Case struct {
 	Failed       bool
 	ActiveExists bool
 	StatusCanary int // status.canary.replicaSet before the reconcile: 0 unset, 1 the matching set, 2 another (stale) name
+	// the recorded active set exists but is being deleted (deletionTimestamp set, kept by a finalizer such as
+	// foregroundDeletion): it still exists, so the rule - not the adoption shortcut - decides
+	ActiveTerminating bool
 }
 
 func (k c05Case) String() string {
-	return fmt.Sprintf("strategy=%d age=%d noRestarts=%d lastRestart=%d pause=%d unpaused=%v valid=%d failed=%v activeExists=%v statusCanary=%d", k.Strategy, k.AgeVsDur, k.NoRestarts, k.LastRestart, k.Pause, k.Unpaused, k.Valid, k.Failed, k.ActiveExists, k.StatusCanary)
+	return fmt.Sprintf("strategy=%d age=%d noRestarts=%d lastRestart=%d pause=%d unpaused=%v valid=%d failed=%v activeExists=%v activeTerminating=%v statusCanary=%d", k.Strategy, k.AgeVsDur, k.NoRestarts, k.LastRestart, k.Pause, k.Unpaused, k.Valid, k.Failed, k.ActiveExists, k.ActiveTerminating, k.StatusCanary)
 }
 
 const c05Duration = 2 * time.Minute
@@ -145,6 +148,15 @@ func runC05(k c05Case) (vs []mon.V, nontrivial bool, err error) {
 	}
 	if !k.ActiveExists {
 		c.DeleteERS("ns1", active)
+	} else if k.ActiveTerminating {
+		ok := c.MutateERS("ns1", active, func(rs *edsv1.ExtendedDaemonSetReplicaSet) {
+			ts := metav1.NewTime(now.Add(-5 * time.Second))
+			rs.DeletionTimestamp = &ts
+			rs.Finalizers = []string{"foregroundDeletion"}
+		})
+		if rs := c.ERS("ns1", active); !ok || rs == nil || rs.DeletionTimestamp == nil {
+			return nil, false, fmt.Errorf("harness: could not mark the active replica set as terminating")
+		}
 	}
 	rec := c.Reconcile(sim.ActorEDS, "ns1", "foo")
 	vs = mon.Check(rec, mon.Of("promotion-rule", "no-panic"), nil)
@@ -168,7 +180,7 @@ func c05Draw(rt *rapid.T) c05Case {
 		NoRestarts: rapid.IntRange(0, 2).Draw(rt, "noRestarts"), LastRestart: rapid.IntRange(0, 3).Draw(rt, "lastRestart"),
 		Pause: rapid.IntRange(0, 2).Draw(rt, "pause"), Unpaused: rapid.Bool().Draw(rt, "unpaused"), Valid: rapid.IntRange(0, 2).Draw(rt, "valid"),
 		Failed: rapid.Bool().Draw(rt, "failed"), ActiveExists: rapid.IntRange(0, 3).Draw(rt, "activeExists") != 0,
-		StatusCanary: rapid.IntRange(0, 2).Draw(rt, "statusCanary"),
+		StatusCanary: rapid.IntRange(0, 2).Draw(rt, "statusCanary"), ActiveTerminating: rapid.IntRange(0, 3).Draw(rt, "activeTerminating") == 0,
 	}
 }
 
@@ -180,7 +192,7 @@ func c05Report(rec *evid.Rec, k c05Case, vs []mon.V) {
 
 // TestC05Lattice samples the promotion lattice (quick) ...
 func TestC05Lattice(t *testing.T) {
-	rec := evid.New("TestC05Lattice", "C05", "point of the promotion lattice {strategy absent/auto/manual} x {age vs duration: -1s, 0, +1s, >>} x {noRestartsDuration default/0/1m} x {last restart none/old/at the limit/recent} x {pause none/annotation/condition} x unpaused x {canary-valid absent/this/other} x failed x {recorded active set exists or not} x {status.canary unset / names the matching set / names a superseded one}, then one EDS reconcile judged by the promotion rule; non-trivial = canary strategy present and the active set exists (the rule, not a shortcut, decides); distinct by lattice point")
+	rec := evid.New("TestC05Lattice", "C05", "point of the promotion lattice {strategy absent/auto/manual} x {age vs duration: -1s, 0, +1s, >>} x {noRestartsDuration default/0/1m} x {last restart none/old/at the limit/recent} x {pause none/annotation/condition} x unpaused x {canary-valid absent/this/other} x failed x {recorded active set exists / exists but is being deleted (finalizer) / is gone} x {status.canary unset / names the matching set / names a superseded one}, then one EDS reconcile judged by the promotion rule; non-trivial = canary strategy present and the active set exists (the rule, not a shortcut, decides); distinct by lattice point")
 	t.Cleanup(func() {
 		if !t.Failed() {
 			rec.Done()
@@ -206,7 +218,7 @@ func TestC05Lattice(t *testing.T) {
 
 // ... and TestC05Exhaustive enumerates it completely (thorough; sharded by the driver).
 func TestC05Exhaustive(t *testing.T) {
-	rec := evid.New("TestC05Exhaustive", "C05", "complete enumeration of the promotion lattice (24192 points, incl. the recorded status.canary: unset / the matching set / a stale other name), one EDS reconcile each; non-trivial = canary strategy present and the active set exists")
+	rec := evid.New("TestC05Exhaustive", "C05", "complete enumeration of the promotion lattice (36288 points, the recorded active set existing / terminating / gone, incl. the recorded status.canary: unset / the matching set / a stale other name), one EDS reconcile each; non-trivial = canary strategy present and the active set exists")
 	shard, shards := envInt("VERIF_SHARD", 0), envInt("VERIF_SHARDS", 1)
 	i := 0
 	failed := false
@@ -218,7 +230,8 @@ func TestC05Exhaustive(t *testing.T) {
 						for _, up := range []bool{false, true} {
 							for v := 0; v < 3; v++ {
 								for _, f := range []bool{false, true} {
-									for _, ae := range []bool{true, false} {
+									for ae3 := 0; ae3 < 3; ae3++ {
+										ae, term := ae3 != 2, ae3 == 1
 										for sc := 0; sc < 3; sc++ {
 											if s == 0 && sc != 0 {
 												continue
@@ -227,7 +240,7 @@ func TestC05Exhaustive(t *testing.T) {
 											if i%shards != shard {
 												continue
 											}
-											k := c05Case{s, a, nr, lr, pz, up, v, f, ae, sc}
+											k := c05Case{s, a, nr, lr, pz, up, v, f, ae, sc, term}
 											vs, nt, err := runC05(k)
 											if err != nil {
 												t.Fatalf("%v", err)
